@@ -53,7 +53,7 @@ package main
 //@   loop 1 invariant @none-so-far forall j int :: (0 <= j && j < $i) ==> !disabledTags[info.Tags[j]]
 
 //@ func (*program).initCheckers
-//@   prop C06 C19
+//@   prop C06 C19 C04
 //@   requires p != nil && p.checkers == nil
 //@   requires @registry-wf forall k int :: (0 <= k && k < len(p.infoList)) ==> wfInfo(p.infoList[k])
 //@   assigns p.checkers
@@ -61,6 +61,9 @@ package main
 //@   ensures @selected-only result == nil ==> (forall m int :: (0 <= m && m < len(p.checkers)) ==> (validChecker(p.checkers[m]) && (exists k int :: 0 <= k && k < len(p.infoList) && p.infoList[k] == p.checkers[m].Info && selectedS(p.infoList[k], p.filters.enableAll, p.filters.enable, p.filters.disable))))
 //@   ensures @all-selected result == nil ==> (forall k int :: (0 <= k && k < len(p.infoList) && selectedS(p.infoList[k], p.filters.enableAll, p.filters.enable, p.filters.disable)) ==> (exists m int :: 0 <= m && m < len(p.checkers) && p.checkers[m] != nil && p.checkers[m].Info == p.infoList[k]))
 //@   ensures @empty-selection-is-error len(p.checkers) == 0 ==> result != nil
+//@   ensures @checkers-are-distinct-objects {C04} result == nil ==> (forall m int, n int :: (0 <= m && m < n && n < len(p.checkers)) ==> p.checkers[m] != p.checkers[n])
+//@   loop 1 invariant @distinct-prefix {C04} forall m int, n int :: (0 <= m && m < n && n < len(p.checkers)) ==> p.checkers[m] != p.checkers[n]
+//@   loop 1 invariant @existing-checkers-exist {C04} forall m int :: (0 <= m && m < len(p.checkers)) ==> born(p.checkers[m]) <= now()
 //@   loop 1 invariant @fresh-checkers p.checkers == nil || fresh(p.checkers)
 //@   loop 1 invariant @selected-only-prefix forall m int :: (0 <= m && m < len(p.checkers)) ==> (validChecker(p.checkers[m]) && fresh(p.checkers[m]) && (exists k int :: 0 <= k && k < $i && p.infoList[k] == p.checkers[m].Info && selectedS(p.infoList[k], p.filters.enableAll, p.filters.enable, p.filters.disable)))
 //@   loop 1 invariant @all-selected-prefix forall k int :: (0 <= k && k < $i && selectedS(p.infoList[k], p.filters.enableAll, p.filters.enable, p.filters.disable)) ==> (exists m int :: 0 <= m && m < len(p.checkers) && p.checkers[m] != nil && p.checkers[m].Info == p.infoList[k])
